@@ -2,7 +2,7 @@ import os
 from common import Ctx, RULES, case_lines
 
 PID = "C06"
-COQ_FILES = ["Model/Base.v", "Model/Decode.v", "Proofs/DecodeProofs.v", "Properties/C06.v"]
+COQ_FILES = ["Model/Base.v", "Model/Decode.v", "Proofs/DecodeProofs.v", "Gen/Decode.v", "Ties/DecodeTie.v", "Properties/C06.v"]
 RULES[PID] = ("c06-e2e: seeded generator of Rust debuggees; 6 fixed coverage programs (all integer widths/signs at boundary values, floats by bit "
               "pattern, bool/char/unit/str/String/NonZero, tuples/arrays/slices; C-like enums with 2..300 variants and explicit repr(i8..u64) "
               "discriminants, Option of them, data enums with 130-260 variants and explicit high discriminants; Vec/VecDeque scripted by "
